@@ -125,6 +125,15 @@ class TraceGen:
             if not wires:
                 continue
             x = r.random()
+            taken = [op for c in d.children for op in c.pins.values() if op.wire is not None and hd(op.wire)]
+            if x < 0.12 and taken and len(wires) >= 2:
+                # an instance pin that sits on a net already is offered to a second net, named by a stand-in: the call is
+                # refused and nothing changes (were it accepted, the two nets would answer differently by start point)
+                op = r.choice(taken)
+                ih, ph = hd(op.instance), hd(op.inner_pin)
+                other = [wr for wr in wires if wr is not op.wire]
+                if ih and ph and other:
+                    return [{"op": "connect_pin", "on": hd(r.choice(other)), "pin": {"k": "proxy", "i": ih, "p": ph}}]
             if x < 0.6 and used and free:
                 wr = r.choice(used)
                 a, b = ref(r.choice(list(wr.pins))), ref(r.choice(free))
